@@ -13,7 +13,7 @@ RULE = ("(ref, query, k) cases are executed on symdel(seqs2=), nearest_neighbor(
 ASSUMPTIONS = ["an index object may change its internal state on look-ups (e.g. memoisation); only the answers are judged, and the BFS expands every new canonical state (all instance attributes, contents included) up to the depth bound",
                "LookupDB enumerates the 20-letter edit ball: k<=2 only for short strings (cost), k=3 only on U(AC,1)",
                "index state = (variant_dict / seq_dict contents, seqs, max_edits); other attributes do not exist on these classes (checked: vars())"]
-REQUIRED_CLASSES = {"all": ["q-equals-r-position-hit", "identical-sequence-d0", "duplicate-in-ref", "duplicate-in-query", "history-step", "same-object-both-sides", "history-changes-max_edits", "progress-option", "max_custom_distance-without-custom-distance", "history-with-failed-lookup", "non-amino-acid-symbols"]}
+REQUIRED_CLASSES = {"all": ["q-equals-r-position-hit", "identical-sequence-d0", "duplicate-in-ref", "duplicate-in-query", "history-step", "same-object-both-sides", "history-changes-max_edits", "progress-option", "max_custom_distance-without-custom-distance", "history-with-failed-lookup", "non-amino-acid-symbols", "more-than-1000-queries", "more-than-500-candidates-per-query"]}
 MIN_OUTCOMES = 10
 
 ENG = ("symdel2", "nn2", "SymdelDB", "LookupDB")
@@ -80,6 +80,11 @@ def spaces(tier):
             for eng in ("symdel2", "nn2", "SymdelDB"):
                 yield ("uu", "AX*", 3, k, eng, "fwd")
                 yield ("few-queries", "Ax*", k, eng)
+        for eng in ("symdel2-progress", "SymdelDB-progress", "symdel2", "nn2"):
+            yield ("many-queries", 1030, eng)
+        for eng in ("symdel2", "nn2", "SymdelDB"):
+            for mode in ("lev", "hamming"):
+                yield ("scan", eng, mode)
         # LookupDB: ball enumeration over 20 letters is exponential in k
         for alpha, L, k in ([("AC", 4, 1), ("ACD", 3, 1), ("AC", 2, 2), ("AC", 1, 3)] if q else
                             [("AC", 6, 1), ("ACD", 4, 1), ("AC", 3, 2), ("ACD", 2, 2), ("AC", 1, 3)]):
@@ -228,6 +233,36 @@ def check_case(case, acc):
         acc.extra["pairs_decided"] += len(ref) * len(query)
         _classes(acc, ref, query, expected)
         _compare(acc, case, eng, ref, query, k, run_engine(acc, eng, ref, query, k), expected)
+    elif kind == "many-queries":
+        # more than 1000 queries (hits before and after position 999) against a small reference
+        _, n, eng = case
+        acc.cls("more-than-1000-queries")
+        query, pos = E.size_family(n, marks=(256, 1000, 1024))
+        ref = [query[pos[0]], E.filler(5), query[pos[-1]][:6] + "A" + query[pos[-1]][7:], query[n // 2]]
+        expected = neighbors_within(ref, 1, queries=query)
+        _compare(acc, case, eng, ref, query, 1, run_engine(acc, eng, ref, query, 1), expected, outcome=False)
+    elif kind == "scan":
+        # a mutational scan as reference: every substitution, insertion and deletion of one 13-mer over the 20 letters
+        # (> 500 candidate positions for the wild type), queried in both distance modes
+        _, eng, mode = case
+        from mc.refmodel import ref_ball
+        import pyrepseq
+        from pyrepseq.nn import SymdelDB
+        acc.cls("more-than-500-candidates-per-query")
+        wt = "CASSLGQAYEQYF"
+        ref = sorted(ref_ball(wt, "ACDEFGHIKLMNPQRSTVWY", 1))
+        query = [wt, wt + "A", wt[1:], "CASSLGQAYEQYW"]
+        cd = None if mode == "lev" else "hamming"
+        expected = neighbors_within(ref, 1, queries=query, dist="lev" if mode == "lev" else "hamming")
+        if eng == "SymdelDB":
+            res = acc.call(lambda: SymdelDB(list(ref), 1).lookup(list(query), custom_distance=cd))
+        else:
+            res = acc.call(pyrepseq.symdel if eng == "symdel2" else pyrepseq.nearest_neighbor, list(ref), 1, custom_distance=cd, seqs2=list(query))
+        bad = diagnose(res, expected, self_mode=False)
+        if bad is not None:
+            acc.fail("%s/%s/mutational-scan-reference/%s" % (eng, mode, bad[0]), case, len(expected), digest(res)[:10] if not isinstance(digest(res), str) else digest(res), note=str(bad)[:200])
+        else:
+            acc.ok((eng, mode, len(expected)), nontrivial=True)
     elif kind == "few-queries":
         # fewer queries than references, non-standard symbols on the reference side
         _, alpha, k, eng = case
